@@ -19,36 +19,36 @@ deriving Inhabited
 
 /-- HUF_readStats_body on `src[start, start+srcSize)`; `hufLogMax` = HUF_TABLELOG_MAX (12 in the library) -/
 def readStats (src : Bytes) (start srcSize : Nat) (hufLogMax : Nat := Gen.HUF_TABLELOG_MAX) : R Stats := do
-  if srcSize = 0 then throw .srcSizeWrong
+  if srcSize = 0 then throw (.srcSizeWrongAt "Huf:22")
   let hb := src.u8 start
   let mut ws : Array Nat := #[]
   let mut iSize := hb
   if hb ≥ 128 then
     let oSize := hb - 127
     iSize := (oSize + 1) / 2
-    if iSize + 1 > srcSize then throw .srcSizeWrong
-    if oSize ≥ 256 then throw .corruption
+    if iSize + 1 > srcSize then throw (.srcSizeWrongAt "Huf:29")
+    if oSize ≥ 256 then throw (.corruptionAt "Huf:30")
     for n in [0:oSize] do
       let byte := src.u8 (start + 1 + n / 2)
       ws := ws.push (if n % 2 == 0 then byte >>> 4 else byte &&& 15)
   else
-    if iSize + 1 > srcSize then throw .srcSizeWrong
+    if iSize + 1 > srcSize then throw (.srcSizeWrongAt "Huf:35")
     ws ← FSE.decompressWeights src (start + 1) iSize 255
   let mut total := 0
   let mut rank1 := 0
   for w in ws do
-    if w > hufLogMax then throw .corruption
+    if w > hufLogMax then throw (.corruptionAt "Huf:40")
     if w == 1 then rank1 := rank1 + 1
     total := total + ((1 <<< w) >>> 1)
-  if total == 0 then throw .corruption
+  if total == 0 then throw (.corruptionAt "Huf:43")
   let tableLog := highbit total + 1
-  if tableLog > hufLogMax then throw .corruption
+  if tableLog > hufLogMax then throw (.corruptionAt "Huf:45")
   let rest := (1 <<< tableLog) - total
   let verif := 1 <<< highbit rest
-  if verif != rest then throw .corruption
+  if verif != rest then throw (.corruptionAt "Huf:48")
   let last := highbit rest + 1
   if last == 1 then rank1 := rank1 + 1
-  if rank1 < 2 || rank1 % 2 == 1 then throw .corruption
+  if rank1 < 2 || rank1 % 2 == 1 then throw (.corruptionAt "Huf:51")
   return { weights := ws.push last, tableLog := tableLog, used := iSize + 1 }
 
 /-- HUF_readDTableX1_wksp: weight-w symbols (in symbol order) occupy (1<<w)>>1 consecutive cells, weights ascending -/
@@ -67,34 +67,48 @@ def buildTable (st : Stats) : Table := Id.run do
   return { log := st.tableLog, cells := cells }
 
 /-- HUF_decompress1X: exactly `n` symbols, then the stream must be exactly exhausted -/
-def decode1 (t : Table) (src : Bytes) (start len n : Nat) (out : ByteArray) : R ByteArray := do
+def decode1 (t : Table) (src : Bytes) (start len n : Nat) (out : ByteArray) (fastPathPossible : Bool := false) : R ByteArray := do
   let mut r ← match BitR.init src start len with
     | .ok r => pure r
-    | .error _ => throw .corruption
+    | .error _ => throw (.corruptionAt "Huf:73")
   let mut o := out
-  for _ in [0:n] do
+  let mut overEarly := false
+  for i in [0:n] do
     let idx := r.peek t.log
     let (sym, nb) := t.cells[idx]!
     r := r.skip nb
+    if r.over && i + 1 < n then overEarly := true
     o := o.push (UInt8.ofNat sym)
-  if !r.atEnd then throw .corruption
+  -- 4-stream literals whose streams are all >= 8 bytes go through HUF_decompress4X?_usingDTable_internal_fast (C loop or asm),
+  -- which validates only the produced LENGTH of each stream, not that the bitstream ended exactly
+  if fastPathPossible && (r.over || r.left != 0) then throw (.lax "4-stream huffman literals: stream end not validated by the fast decoding loop")
+  if overEarly then throw (.corruptionAt "Huf:overread")
+  -- an over-read by the LAST symbol only: rejected by the single-symbol decoder, forgiven by HUF_decodeLastSymbolX2
+  -- (`if (bitsConsumed > 64) bitsConsumed = 64`)
+  if r.over then throw (.lax "last huffman symbol reads past the stream start (accepted by the X2 decoder only)")
+  -- leftover bits: the single-symbol decoder rejects; the double-symbol decoder's last-symbol step (HUF_decodeLastSymbolX2)
+  -- clamps the consumption of a 2-symbol cell to the end of the stream and so tolerates up to one code length of trailing bits
+  if r.left != 0 then
+    if r.left ≤ Gen.HUF_TABLELOG_MAX then throw (.lax "huffman stream ends with spare bits (accepted by the X2 decoder only)")
+    else throw (.corruptionAt "Huf:leftover")
   return o
 
 /-- HUF_decompress4X: 6-byte jump table, four streams, segment size (n+3)/4 -/
 def decode4 (t : Table) (src : Bytes) (start len n : Nat) (out : ByteArray) : R ByteArray := do
-  if len < 10 then throw .corruption
-  if n < 6 then throw .corruption
+  if len < 10 then throw (.corruptionAt "Huf:85")
+  if n < 6 then throw (.corruptionAt "Huf:86")
   let l1 := src.le16 start
   let l2 := src.le16 (start + 2)
   let l3 := src.le16 (start + 4)
-  if 6 + l1 + l2 + l3 > len then throw .corruption
+  if 6 + l1 + l2 + l3 > len then throw (.corruptionAt "Huf:90")
   let l4 := len - (6 + l1 + l2 + l3)
   let seg := (n + 3) / 4
-  if 3 * seg > n then throw .corruption
+  if 3 * seg > n then throw (.corruptionAt "Huf:93")
   let s1 := start + 6
-  let o1 ← decode1 t src s1 l1 seg out
-  let o2 ← decode1 t src (s1 + l1) l2 seg o1
-  let o3 ← decode1 t src (s1 + l1 + l2) l3 seg o2
-  decode1 t src (s1 + l1 + l2 + l3) l4 (n - 3 * seg) o3
+  let fast := l1 ≥ 8 && l2 ≥ 8 && l3 ≥ 8 && l4 ≥ 8
+  let o1 ← decode1 t src s1 l1 seg out fast
+  let o2 ← decode1 t src (s1 + l1) l2 seg o1 fast
+  let o3 ← decode1 t src (s1 + l1 + l2) l3 seg o2 fast
+  decode1 t src (s1 + l1 + l2 + l3) l4 (n - 3 * seg) o3 fast
 
 end ZstdVerif.Huf
